@@ -67,6 +67,7 @@ package parser
 //@   defines toks() == upd(old(toks()), ppos, tok.Type)
 
 //@ func parser.parse
+//@   at expression#* assert[C10 C04] fresh: arg1 < precOf(const("lexer.PipeToken"))
 //@   tags C04 C09
 //@   linear
 //@   assigns p.curr, p.next, p.lex, fam:G_pos, fam:G_toks
@@ -74,6 +75,7 @@ package parser
 //@   ensures[C04] end: result1 == nil ==> p.curr.Type == const("lexer.EndToken") && result0 != nil
 
 //@ func parser.filter
+//@   at expression#* assert[C10 C04] fresh: arg1 < precOf(const("lexer.PipeToken"))
 //@   tags C04 C09
 //@   linear
 //@   assigns p.curr, p.next, p.lex, fam:G_pos, fam:G_toks
@@ -87,7 +89,7 @@ package parser
 //@ func parser.expression
 //@   tags C10 C04 C09 C01 C17
 //@   linear
-//@   at new:PipeNode#1 assert[C18 C01 C17] pipe.node: p.curr.Type == tokT(ppos)
+//@   at new:PipeNode#2 assert[C18 C01 C17] pipe.node: p.curr.Type == tokT(ppos)
 //@   assigns p.curr, p.next, p.lex, fam:G_pos, fam:G_toks
 //@   requires pi: p.curr.Type == tokT(ppos) && p.next.Type == tokT(ppos + 1) && tokOK(p.curr.Type, p.curr.Value) && tokOK(p.next.Type, p.next.Value) && 0 <= p.lex.position && p.lex.position <= len(p.lex.expression) && aligned(p.lex.expression) && boundAt(p.lex.expression, p.lex.position)
 //@   ensures pi: result1 == nil ==> p.curr.Type == tokT(ppos) && p.next.Type == tokT(ppos + 1) && tokOK(p.curr.Type, p.curr.Value) && tokOK(p.next.Type, p.next.Value) && 0 <= p.lex.position && p.lex.position <= len(p.lex.expression) && aligned(p.lex.expression) && boundAt(p.lex.expression, p.lex.position)
@@ -214,6 +216,7 @@ package parser
 //@   ensures[C12 C01 C04 C17] projects: result2 == nil ==> result1 == (isType(result0, "*github.com/woodsbury/jmespath/internal/parser.SliceNode") || isType(result0, "*github.com/woodsbury/jmespath/internal/parser.SliceCurrentNode") || isType(result0, "*github.com/woodsbury/jmespath/internal/parser.SliceStepNode") || isType(result0, "*github.com/woodsbury/jmespath/internal/parser.SliceStepCurrentNode"))
 
 //@ func parser.selectArray
+//@   at expression#* assert[C10 C04] fresh: arg1 < precOf(const("lexer.PipeToken"))
 //@   tags C04 C09
 //@   linear
 //@   assigns p.curr, p.next, p.lex, fam:G_pos, fam:G_toks
@@ -232,6 +235,7 @@ package parser
 //@     invariant[C04] separator: ppos == old(ppos) || (tokT(ppos - 1) == const("lexer.CommaToken") && ppos > old(ppos))
 
 //@ func parser.selectObject
+//@   at expression#* assert[C10 C04] fresh: arg1 < precOf(const("lexer.PipeToken"))
 //@   tags C04 C09 C15
 //@   linear
 //@   assigns p.curr, p.next, p.lex, fam:G_pos, fam:G_toks
@@ -251,6 +255,7 @@ package parser
 //@     invariant[C04 C15] separator: ppos == old(ppos) || (tokT(ppos - 1) == const("lexer.CommaToken") && ppos > old(ppos))
 
 //@ func parser.let
+//@   at expression#* assert[C10 C04] fresh: arg1 < precOf(const("lexer.PipeToken"))
 //@   tags C04 C09 C19 C15
 //@   linear
 //@   assigns p.curr, p.next, p.lex, fam:G_pos, fam:G_toks
@@ -274,6 +279,7 @@ package parser
 // function calls (C02, C04, C08): arity helpers and the name -> node table
 
 //@ func parser.function1Arg
+//@   at expression#* assert[C10 C04] fresh: arg1 < precOf(const("lexer.PipeToken"))
 //@   tags C02 C04 C08 C09
 //@   linear
 //@   at new:unexpectedTokenError#* assert[C02 C08] arity.sep: p.curr.Type != const("lexer.CloseParenToken") && p.curr.Type != const("lexer.CommaToken")
@@ -288,6 +294,7 @@ package parser
 //@   ensures[C02 C08] noargs: old(p.curr.Type) == const("lexer.CloseParenToken") ==> isType(result1, "*github.com/woodsbury/jmespath/internal/parser.InvalidFunctionCallError")
 
 //@ func parser.function1To2Arg
+//@   at expression#* assert[C10 C04] fresh: arg1 < precOf(const("lexer.PipeToken"))
 //@   tags C02 C04 C08 C09
 //@   linear
 //@   at new:unexpectedTokenError#* assert[C02 C08] arity.sep: p.curr.Type != const("lexer.CloseParenToken") && p.curr.Type != const("lexer.CommaToken")
@@ -303,6 +310,7 @@ package parser
 //@   ensures[C02 C08] noargs: old(p.curr.Type) == const("lexer.CloseParenToken") ==> isType(result2, "*github.com/woodsbury/jmespath/internal/parser.InvalidFunctionCallError")
 
 //@ func parser.function2Arg
+//@   at expression#* assert[C10 C04] fresh: arg1 < precOf(const("lexer.PipeToken"))
 //@   tags C02 C04 C08 C09
 //@   linear
 //@   at new:unexpectedTokenError#* assert[C02 C08] arity.sep: p.curr.Type != const("lexer.CloseParenToken") && p.curr.Type != const("lexer.CommaToken")
@@ -318,6 +326,7 @@ package parser
 //@   ensures[C02 C08] noargs: old(p.curr.Type) == const("lexer.CloseParenToken") ==> isType(result2, "*github.com/woodsbury/jmespath/internal/parser.InvalidFunctionCallError")
 
 //@ func parser.function2ExpArg
+//@   at expression#* assert[C10 C04] fresh: arg1 < precOf(const("lexer.PipeToken"))
 //@   tags C02 C04 C08 C09
 //@   linear
 //@   at new:unexpectedTokenError#* assert[C02 C08] arity.sep: p.curr.Type != const("lexer.CloseParenToken") && p.curr.Type != const("lexer.CommaToken")
@@ -333,6 +342,7 @@ package parser
 //@   ensures[C02 C08] noargs: old(p.curr.Type) == const("lexer.CloseParenToken") ==> isType(result2, "*github.com/woodsbury/jmespath/internal/parser.InvalidFunctionCallError")
 
 //@ func parser.function2MapArg
+//@   at expression#* assert[C10 C04] fresh: arg1 < precOf(const("lexer.PipeToken"))
 //@   tags C02 C04 C08 C09
 //@   linear
 //@   at new:unexpectedTokenError#* assert[C02 C08] arity.sep: p.curr.Type != const("lexer.CloseParenToken") && p.curr.Type != const("lexer.CommaToken")
@@ -348,6 +358,7 @@ package parser
 //@   ensures[C02 C08] noargs: old(p.curr.Type) == const("lexer.CloseParenToken") ==> isType(result2, "*github.com/woodsbury/jmespath/internal/parser.InvalidFunctionCallError")
 
 //@ func parser.function2To3Arg
+//@   at expression#* assert[C10 C04] fresh: arg1 < precOf(const("lexer.PipeToken"))
 //@   tags C02 C04 C08 C09
 //@   linear
 //@   at new:unexpectedTokenError#* assert[C02 C08] arity.sep: p.curr.Type != const("lexer.CloseParenToken") && p.curr.Type != const("lexer.CommaToken")
@@ -363,6 +374,7 @@ package parser
 //@   ensures[C02 C08] noargs: old(p.curr.Type) == const("lexer.CloseParenToken") ==> isType(result3, "*github.com/woodsbury/jmespath/internal/parser.InvalidFunctionCallError")
 
 //@ func parser.function2To4Arg
+//@   at expression#* assert[C10 C04] fresh: arg1 < precOf(const("lexer.PipeToken"))
 //@   tags C02 C04 C08 C09
 //@   linear
 //@   at new:unexpectedTokenError#* assert[C02 C08] arity.sep: p.curr.Type != const("lexer.CloseParenToken") && p.curr.Type != const("lexer.CommaToken")
@@ -378,6 +390,7 @@ package parser
 //@   ensures[C02 C08] noargs: old(p.curr.Type) == const("lexer.CloseParenToken") ==> isType(result4, "*github.com/woodsbury/jmespath/internal/parser.InvalidFunctionCallError")
 
 //@ func parser.function3To4Arg
+//@   at expression#* assert[C10 C04] fresh: arg1 < precOf(const("lexer.PipeToken"))
 //@   tags C02 C04 C08 C09
 //@   linear
 //@   at new:unexpectedTokenError#* assert[C02 C08] arity.sep: p.curr.Type != const("lexer.CloseParenToken") && p.curr.Type != const("lexer.CommaToken")
@@ -393,6 +406,7 @@ package parser
 //@   ensures[C02 C08] noargs: old(p.curr.Type) == const("lexer.CloseParenToken") ==> isType(result4, "*github.com/woodsbury/jmespath/internal/parser.InvalidFunctionCallError")
 
 //@ func parser.functionVarArg
+//@   at expression#* assert[C10 C04] fresh: arg1 < precOf(const("lexer.PipeToken"))
 //@   tags C02 C04 C08 C09
 //@   linear
 //@   at new:unexpectedTokenError#* assert[C02 C08] arity.sep: p.curr.Type != const("lexer.CloseParenToken") && p.curr.Type != const("lexer.CommaToken")
